@@ -171,7 +171,12 @@ Section Spec10.
     | RStruct style rfs _ =>
         container_wf t (rd_attrs d)
         && forallb (fun rf => if is_magic t rf then magic_wf t rf else field_wf (rf_attrs rf)) rfs
-        && (match style with StTuple => Nat.eqb (List.length rfs) 1 | _ => true end)   (* a body the trait can represent *)
+        && (match style with                                                           (* a body the trait can represent *)
+            | StTuple =>
+                Nat.eqb (List.length rfs) 1
+                && match t with DFromField | DFromVariant | DFromTypeParam => false | _ => true end   (* no delegating newtype form *)
+            | _ => true
+            end)
         && Nat.leb (List.length (filter (fun rf => negb (is_magic t rf) && is_flatten_field (rf_attrs rf)) rfs)) 1
         && (if is_outer t then
               (* an attrs field needs forward_attrs *)
